@@ -10,11 +10,12 @@ RULE = ("exhaustive: every acyclic dependency graph on <= 3 statements x every r
         "random: phases of up to 10 statements with no-ops, constant guards, double negations, loop nests of depth <= 2, "
         "occasional dangling dependencies. Compared with the Lean model: the exact structured program returned by "
         "create_ast_from_phase (leaves must carry condition=True and no loops; loops must carry the declared identifier and bounds). "
-        "Oracle: for all valuations of 3 flags and trip counts (2, 1, 0): the executed leaves are exactly the non-no-op statements "
+        "Guards in the random part also include conditions that are not variables (comparisons of a and b, a conjunction). "
+        "Oracle: for all valuations of 3 flags (and of a, b over {0, 1, NaN} where comparisons occur) and trip counts (2, 1, 0): the executed leaves are exactly the non-no-op statements "
         "whose guard holds, once per iteration vector of their declared loops, in an order consistent with the dependencies; "
         "3 permuted storage orders give the identical program. Non-trivial: >= 2 statements, >= 1 edge.")
 TRUSTED = ["ids are compared as Python compares str; the harness numbers them by sorted rank",
-           "guards are flags/negations/constants (pymbolic structural equality)"]
+           "guards are flags, five fixed non-variable conditions, negations and constants (atoms to the model; pymbolic structural equality)"]
 
 TRIPS = [2, 1, 0]
 
@@ -151,7 +152,7 @@ def oracle(case, out):
         if sid_ in declared and path != declared[sid_]:
             return {"what": f"statement {sid_} sits inside the loops {path} (outermost first), declared {declared[sid_]}",
                     "sig": "loop-nest"}
-    for v in itertools.product([False, True], repeat=3):
+    for v in c06.valuations([s.get("cond") for s in case["stmts"]], out["ok"]):
         got = []
         try:
             trace(out["ok"], v, got)
@@ -172,7 +173,7 @@ def oracle(case, out):
         for x in got:
             cnt[x] = cnt.get(x, 0) + 1
         if cnt != want:
-            return {"what": f"under flags {list(v)} executed leaves {cnt} (id: count), expected {want}", "sig": "leafset"}
+            return {"what": f"under (p0, p1, p2, a, b) = {list(v)} executed leaves {cnt} (id: count), expected {want}", "sig": "leafset"}
         first = {}
         last = {}
         for k, x in enumerate(got):
